@@ -33,6 +33,8 @@ def cases(draw, nums, pmax=5, kmax=4):
     sj = draw(st.integers(0, p))
     return {"U": U, "p": p, "w": w, "num": num, "pairs": pairs, "slices": slices, "sj": sj,
             "eval_before_weights": draw(st.booleans()),
+            "order": draw(st.sampled_from(lib.SEQ_ORDERS)),
+            "form": draw(st.sampled_from(["tuple", "tuple", "list", "gen", "iter", "map"])),
             "reject_first": draw(st.sampled_from([None, None, None, "negative", "zero", "length"]))}
 
 
@@ -91,7 +93,12 @@ def check(case, out):
             out.fail("invalid-weights-accepted", klass, f"weights {badw} accepted for npts={n}")
         except ValueError:
             pass
-    params = gen.params_of(case["U"], 2)
+    # the nodes of the multi-node calls: in any order, in any accepted sequence form (one-shot iterables included)
+    params = lib.reorder(gen.params_of(case["U"], 2), case.get("order", "given"))
+    out.cls("order=" + case.get("order", "given"), "form=" + case.get("form", "tuple"))
+
+    def nodeseq():
+        return lib.seq_form(lparams, case.get("form", "tuple"))
     lparams = [F(u) if exact else lib.conv_knot(u, num) for u in params]
     fparams = [oracle.frac(u) for u in lparams]
 
@@ -139,7 +146,7 @@ def check(case, out):
     for j in range(p + 1):
         T = tables[j] = table(j)
         ev = f[:, j]
-        got = ev(tuple(lparams))
+        got = ev(nodeseq())
         cmp_rows(got, T, f"f[:, {j}](seq)")
         # independent invariants on the returned values
         try:
@@ -165,7 +172,7 @@ def check(case, out):
             col = ev(lparams[k])
             cmp_rows([col], [[T[i][k] for i in range(n)]], f"f[:, {j}]({lparams[k]})")
     # f(u) is f[:, p](u)
-    got = f(tuple(lparams))
+    got = f(nodeseq())
     cmp_rows(got, tables[p], "f(seq)")
     got = f(lparams[-1])
     cmp_rows([got], [[tables[p][i][-1] for i in range(n)]], "f(umax)")
@@ -173,7 +180,7 @@ def check(case, out):
     for i, j in case["pairs"]:
         T = tables[j]
         row = T[i]  # python semantics for negative i
-        got = f[i, j](tuple(lparams))
+        got = f[i, j](nodeseq())
         cmp_rows([got], [row], f"f[{i},{j}](seq)")
         k = (i * 7 + j) % len(lparams)
         gs = f[i, j](lparams[k])
@@ -182,17 +189,17 @@ def check(case, out):
         else:
             out.fail("shape", klass, f"f[{i},{j}](scalar) returned a sequence")
         if j == p:
-            got = f[i](tuple(lparams))
+            got = f[i](nodeseq())
             cmp_rows([got], [row], f"f[{i}](seq)")
     # slices
     sj = case["sj"]
     for a, b, s in case["slices"]:
         sl = slice(a, b, s)
         ref_rows = tables[sj][sl]
-        got = f[sl, sj](tuple(lparams))
+        got = f[sl, sj](nodeseq())
         cmp_rows(got, ref_rows, f"f[{a}:{b}:{s},{sj}](seq)")
         if sj == p:
-            got = f[sl](tuple(lparams))
+            got = f[sl](nodeseq())
             cmp_rows(got, tables[p][sl], f"f[{a}:{b}:{s}](seq)")
     # index errors: must not silently return a table row
     for idx in ((n, p), (-n - 1, p), (0, p + 1), (0, -1)):
